@@ -5,7 +5,7 @@ From Coq Require Import NArith List Bool.
 Import ListNotations.
 From Coq Require Import ZArith.
 From CXV Require Import Gen.TokTy Gen.ParserTables Parse.Balanced Gen.Blocks Parse.BlocksSM.
-From CXV Require Import Base.Regex Base.Cost Gen.LexRules Lex.PlyLoop Gen.StreamTables Stream.TokBuf Fmt.TokFmt PP.Filters Misc.ReprModel Gen.Schema Parse.Fold Parse.Declarator Parse.DeclSpec.
+From CXV Require Import Base.Regex Base.Cost Gen.LexRules Lex.PlyLoop Gen.StreamTables Stream.TokBuf Fmt.TokFmt PP.Filters Misc.ReprModel Gen.Schema Parse.Fold Parse.Declarator Parse.DeclSpec Parse.EnumList Parse.BaseClause.
 Open Scope N_scope.
 
 Definition nlen {A} (l : list A) : N := N.of_nat (length l).
@@ -421,8 +421,41 @@ Definition run_fn_decl (args : list N) : list N :=
   | DErr e => [1; e]
   end.
 
+(* 84: an enumerator list (after the '{'): n (budget), then tokens.
+   Output: 0, rest length, count, then per enumerator: name, 0 | 1 + value length + value tokens *)
+Definition run_enum_list (args : list N) : list N :=
+  match args with
+  | n :: r =>
+      match enum_list (N.to_nat n) [] (dec_tks r) with
+      | DOk (l, rest) =>
+          0 :: nlen rest :: nlen l ::
+            flat_map (fun e => fst e :: match snd e with
+                                        | Some v => 1 :: nlen v :: enc_tks v
+                                        | None => [0]
+                                        end) l
+      | DErr e => [1; e]
+      end
+  | [] => [1; 0]
+  end.
+
+(* 85: a base clause (after the ':'): budget, default access (token type), then tokens.
+   Output: 0, rest length, count, then per base: access, name, virtual, pack *)
+Definition run_bases (args : list N) : list N :=
+  match args with
+  | n :: d :: r =>
+      match bases (N.to_nat n) d [] (dec_tks r) with
+      | DOk (l, rest) =>
+          0 :: nlen rest :: nlen l ::
+            flat_map (fun b => [b_access b; b_name b; bN (b_virtual b); bN (b_pack b)]) l
+      | DErr e => [1; e]
+      end
+  | _ => [1; 0]
+  end.
+
 Definition run_case (cmd : N) (args : list N) : list N :=
   match cmd, args with
+  | 85, _ => run_bases args
+  | 84, _ => run_enum_list args
   | 83, _ => run_fn_decl args
   | 82, _ => run_parse_decls args
   | 81, _ => run_print_decl args
